@@ -6,6 +6,7 @@ import re
 import c06_common as tf
 import lib
 import norm_common as nc
+import normwhole as nw
 
 ID = "C06"
 LEAN_MODULE = "UralModel.Props.C06"
@@ -380,6 +381,8 @@ def _lines(x, ss, pa):
         out.append({"f": "c06_acc", "netloc": netloc})
     for host in line["walk"]:
         out.append({"f": "c06_walk", "host": host})
+    # the whole function on the string, the parser being the model's own (nothing shipped)
+    out.extend(nw.fp_ops(x, ss, pa))
     return out
 
 
@@ -404,6 +407,7 @@ def impl(case):
             out.append(line["acc"][netloc])
         for host in line["walk"]:
             out.append(line["walk"][host])
+        out.extend(nw.fp_impl(x, case["ss"], case["pa"]))
     return out
 
 
@@ -654,4 +658,5 @@ def classify(case):
     elif k == "swap":
         labs.append("swap:%d->%d labels" % (T[1].count(".") + 1, T[2].count(".") + 1))
     labs.append("ss=%d,pa=%d" % (case["ss"], case["pa"]))
+    labs.append(nw.label(case["u"], {"platform_aware": case["pa"]}, lower=True))
     return labs
